@@ -563,6 +563,148 @@ def oracle_lexical(c, stats):
     return c10.compare("lexical", x0, x1, stats)
 
 
+# ------------------------------------------------------------------ structured malformations of valid documents
+
+MAL_KINDS = ["cov_dim", "cov_band", "cov_tokens", "cov_token", "attr_drop", "attr_value", "attr_unknown", "attr_dup", "tag_rename",
+             "elem_dup", "elem_move", "elem_drop", "id_ref", "cluster_empty", "text_garbage"]
+BAD_VALUES = ["", "abc", "1e999", "nan", "inf", "-1", "0", "1e-320", "1,5", "12 34", "-0", "400", "1e22", "0x10", "1.", "--1",
+              "99999999999999999999", "1-2-3", "360-00-00", "-0-0-0.5"]
+
+
+def malform(text, kind, picks):
+    """one semantic damage to a valid document; picks: integers that select the site and the variant.
+    Returns the damaged text (None when the document has no site for this kind)."""
+    a, b, c = picks[0], picks[1], picks[2]
+    tags = list(TAG_RE.finditer(text))
+    covs = list(COV_RE.finditer(text))
+
+    def retag(m, attrs=None, name=None, close=None):
+        nm_, at = m.group(1), ATTR_RE.findall(m.group(2))
+        at = attrs if attrs is not None else at
+        return "<" + (name or nm_) + "".join(' %s="%s"' % kv for kv in at) + (m.group(3) if close is None else close) + ">"
+
+    def splice(m, repl):
+        return text[:m.start()] + repl + text[m.end():]
+
+    if kind.startswith("cov_") and not covs:
+        kind = ["attr_value", "attr_drop", "id_ref", "elem_dup", "tag_rename"][a % 5]
+    if kind.startswith("cov_"):
+        m = covs[a % len(covs)]
+        head = TAG_RE.match(m.group(1))
+        at = dict(ATTR_RE.findall(head.group(2)))
+        dim, band = int(at["dim"]), int(at["band"])
+        toks = m.group(2).split()
+        if kind == "cov_dim":
+            at["dim"] = str([dim + 1, dim - 1, 0, dim + 7, 1000, -dim, 2 * dim][b % 7])
+        elif kind == "cov_band":
+            at["band"] = str([dim, dim + 3, -1, band + 1, 1000000][b % 5])
+        elif kind == "cov_tokens":
+            k = c % 3 + 1
+            toks = toks[:-k] if b % 2 == 0 else toks + ["1.5"] * k
+        else:
+            toks[c % len(toks)] = BAD_VALUES[b % len(BAD_VALUES)] or "?"
+        return splice(m, '<cov-mat dim="%s" band="%s">\n%s\n</cov-mat>' % (at["dim"], at["band"], " ".join(toks)))
+    sites = [m for m in tags if m.group(1) not in ("gama-local", "cov-mat")]
+    if not sites:
+        return None
+    if kind in ("attr_drop", "attr_value", "attr_dup", "id_ref"):
+        want = (lambda k: k in ("from", "to", "bs", "fs", "id")) if kind == "id_ref" else (lambda k: True)
+        sites = [m for m in sites if any(want(k) for k, _ in ATTR_RE.findall(m.group(2)))]
+        if not sites:
+            return None
+        m = sites[a % len(sites)]
+        at = ATTR_RE.findall(m.group(2))
+        idx = [i for i, (k, _) in enumerate(at) if want(k)]
+        i = idx[b % len(idx)]
+        if kind == "attr_drop":
+            at = at[:i] + at[i + 1:]
+        elif kind == "attr_value":
+            at[i] = (at[i][0], BAD_VALUES[c % len(BAD_VALUES)])
+        elif kind == "attr_dup":
+            at = at + [at[i]]
+        else:
+            others = [v for k, v in at if k in ("from", "to", "bs", "fs") and k != at[i][0]]
+            at[i] = (at[i][0], others[0] if (others and c % 2) else "No-Such-Point")
+        return splice(m, retag(m, attrs=at))
+    m = sites[a % len(sites)]
+    if kind == "attr_unknown":
+        return splice(m, retag(m, attrs=ATTR_RE.findall(m.group(2)) + [(["foo", "stdev", "val", "dim", "from_dh", "extern"][b % 6], "1")]))
+    if kind == "tag_rename":
+        other = sites[b % len(sites)].group(1)
+        return splice(m, retag(m, name=[other, "foo", "cov-mat", "point"][c % 4]))
+    lines = text.split("\n")
+    body = [i for i, l in enumerate(lines) if TAG_RE.search(l) and "<gama-local" not in l and "<?xml" not in l]
+    if not body:
+        return None
+    i = body[a % len(body)]
+    if kind == "elem_dup":
+        lines.insert(i, lines[i])
+    elif kind == "elem_move":
+        l = lines.pop(i)
+        lines.insert(body[b % len(body)], l)
+    elif kind == "elem_drop":
+        # a whole <cov-mat> when b is even (vectors / coordinates need one), else one line
+        if b % 2 == 0 and covs:
+            mm = covs[c % len(covs)]
+            return splice(mm, "")
+        lines.pop(i)
+    elif kind == "cluster_empty":
+        opens = [k for k, l in enumerate(lines) if re.match(r"\s*<(obs|height-differences|coordinates|vectors)\b", l)]
+        if not opens:
+            return None
+        k = opens[a % len(opens)]
+        e = k + 1
+        while e < len(lines) and not re.match(r"\s*(<cov-mat|</(obs|height-differences|coordinates|vectors)>)", lines[e]):
+            e += 1
+        del lines[k + 1:e]
+    elif kind == "text_garbage":
+        lines.insert(i, ["12.5 abc", "<![CDATA[<point/>]]>", "&amp;&#65;", "<?pi x?>", "<!-- -->1"][b % 5])
+    return "\n".join(lines)
+
+
+@st.composite
+def malformed_doc(draw):
+    c = draw(valid_doc())
+    c["kind"] = draw(st.sampled_from(MAL_KINDS))
+    c["picks"] = [draw(st.integers(0, 9999)) for _ in range(3)]
+    c["opts"] = draw(st.sampled_from([[], ["--cov-band", "0"], ["--language", "cz"], ["--angular", "360"]]))
+    return c
+
+
+def oracle_malformed(c, stats):
+    text = nm.gkf_text(c["net"])
+    bad = malform(text, c["kind"], c["picks"])
+    if bad is None or bad == text:
+        stats.label("malformed.no_site")
+        return []
+    res = netrun.gama_local(bad, ["--algorithm", c["alg"]] + c["opts"], outputs=("xml", "text", "html", "octave"))
+    if res["crash"] is not None:
+        return ["malformed.crash: %s %s (%s)" % (res["crash"]["kind"], res["crash"]["frame"], c["kind"])]
+    stats.label("malformed." + c["kind"])
+    if not res["xml"]:
+        # gama-local ends without an XML file only when it says why on the terminal
+        if res["rc"] == 0 or not (res["stderr"] or res["stdout"] or "").strip():
+            return ["malformed.silent: exit %s without results and without a message (%s)" % (res["rc"], c["kind"])]
+        stats.label("malformed.refused_on_terminal")
+        return []
+    try:
+        x = adjxml.parse_adjustment(res["xml"])
+    except adjxml.NotWellFormed as e:
+        return ["malformed.xml_not_well_formed: %s (%s)" % (e, c["kind"])]
+    if "error" not in x:
+        stats.label("malformed.accepted")
+        return []
+    E = x["error"]
+    stats.label("malformed.refused", "malformed.refused.%s" % E["category"])
+    if not any((d or "").strip() for d in E["descriptions"]):
+        return ["malformed.empty_diagnostic: category %s (%s)" % (E["category"], c["kind"])]
+    if E["category"] == "gamaLocalParserError":
+        nlines = bad.count("\n") + 1
+        if E["line"] is None or not (1 <= E["line"] <= nlines):
+            return ["malformed.line: parser error '%s' names line %s of %d (%s)" % (E["descriptions"], E["line"], nlines, c["kind"])]
+    return []
+
+
 # ------------------------------------------------------------------ declared input encodings / --encoding of the text output
 
 IN_ENC = {"utf-8": "utf-8", "iso-8859-2": "iso8859_2", "cp-1250": "cp1250", "windows-1250": "cp1250",
@@ -709,6 +851,9 @@ PARTS = [
          sample=lambda c: nm.gkf_text(c["net"])[:600]),
     Part("lexical", strategy=lexical_case, oracle=oracle_lexical, n={"quick": 800, "thorough": 12000},
          nontrivial=lambda c: True, sample=lambda c: lexical_variant(nm.gkf_text(c["net"]), c["ch"], c["flags"])[:700]),
+    Part("malformed", strategy=malformed_doc, oracle=oracle_malformed, n={"quick": 3000, "thorough": 40000},
+         nontrivial=lambda c: True,
+         sample=lambda c: {"kind": c["kind"], "picks": c["picks"], "doc": (malform(nm.gkf_text(c["net"]), c["kind"], c["picks"]) or "")[:500]}),
     Part("seeds_data", custom=run_seeds_data, n={"quick": 1, "thorough": 1}),
     Part("fuzz_gkf", custom=run_fuzz_gkf, n={"quick": 1, "thorough": 1}),
     Part("fuzz_data", custom=run_fuzz_data, n={"quick": 1, "thorough": 1}),
